@@ -19,7 +19,8 @@
 #include "table/arm64.h"
 
 static char reg_size[] = { 'w', 'x' };
-static char scalar_size[] = { 'b', 'h', 's', 'd', 'q' };
+// Indexed with up to 3 bits, the last three sizes don't exist.
+static char scalar_size[] = { 'b', 'h', 's', 'd', 'q', '?', '?', '?' };
 static const char *vec_size[] =
 {
   "8b", "16b", "4h", "8h", "2s", "4s", "1d", "2d"
@@ -611,7 +612,7 @@ int disasm_arm64(
           if (v == 1)
           {
             size |= ((opcode >> 23) & 1) << 2;
-            reg_name = size < (int)sizeof(scalar_size) ? scalar_size[size] : '?';
+            reg_name = scalar_size[size];
           }
             else
           {
